@@ -12,7 +12,7 @@
 import ast
 
 from ..loader import AnalysisError, dotted
-from ..astutil import P, walk_own, calls_in, norm, Defs, leaves, stmt_of, kwarg, need, returns_of, expand, const_value
+from ..astutil import P, walk_own, calls_in, norm, Defs, leaves, stmt_of, kwarg, need, returns_of, expand, const_value, clone
 from .. import cfg as cfgmod
 from ..variants import Witness
 from .common import self_attr_stores
@@ -146,18 +146,81 @@ def rule_r2(p, res):
     r.check(a == b and len(a) == 4, f, f.node, "construction and increment must select sibling routines for the same (edgeless, sparse) case: %s vs %s" % (a, b), {"dispatch_equal": a == b})
 
 
-def _selectors(f):
-    """per mode: (data selector, mean selector) in an increment routine; data selector in a create routine"""
+def _mode_of(g, stmt, d=None):
+    mode = "any"
+    for t, pol in g.guards(stmt):
+        while isinstance(t, ast.UnaryOp) and isinstance(t.op, ast.Not):
+            t, pol = t.operand, not pol
+        tt = norm(expand(t, d)) if d is not None else norm(t)
+        if tt in ("mode == 'concatenation'", "'concatenation' == mode"):
+            mode = "concatenation" if pol else "subtraction"
+        elif tt in ("mode != 'concatenation'", "mode == 'subtraction'", "'subtraction' == mode"):
+            mode = "subtraction" if pol else "concatenation"
+        elif tt == "mode != 'subtraction'":
+            mode = "concatenation" if pol else "subtraction"
+    return mode
+
+
+def _alpha(expr, params):
+    """text of an expanded expression with every remaining local (loop variables) numbered by first appearance"""
+    class Sp(ast.NodeTransformer):
+        def visit_Subscript(self, n):
+            self.generic_visit(n)
+            def sl(x):
+                if isinstance(x, ast.Call) and isinstance(x.func, ast.Name) and x.func.id == "slice" and len(x.args) == 2 and not x.keywords:
+                    return ast.Slice(lower=None if isinstance(x.args[0], ast.Constant) and x.args[0].value is None else x.args[0],
+                                     upper=None if isinstance(x.args[1], ast.Constant) and x.args[1].value is None else x.args[1], step=None)
+                return x
+            n.slice = ast.Tuple(elts=[sl(x) for x in n.slice.elts], ctx=ast.Load()) if isinstance(n.slice, ast.Tuple) else sl(n.slice)
+            simple = lambda x: isinstance(x, (ast.Constant, ast.Name))
+            if isinstance(n.value, ast.Subscript) and simple(n.slice) and simple(n.value.slice):
+                n = ast.Subscript(value=n.value.value, slice=ast.Tuple(elts=[n.value.slice, n.slice], ctx=ast.Load()), ctx=n.ctx)
+            return n
+
+    e = ast.fix_missing_locations(Sp().visit(clone(expr)))
+    names = {}
+    for n in ast.walk(e):
+        if isinstance(n, ast.Name) and n.id not in params and n.id not in ("np", "list", "range", "len", "slice", "int", "tuple"):
+            n.id = names.setdefault(n.id, "_v%d" % len(names))
+    return norm(e)
+
+
+def _per_mode(f, expr):
+    """{mode: fully expanded expression} of an argument of the consuming call: a local assigned once per branch of the
+    mode test gives one entry per branch, anything else one entry 'any'"""
+    d = Defs(f.node)
     g = cfgmod.build(f.node)
+    while isinstance(expr, ast.Name) and d.single(expr.id) is not None and isinstance(d.single(expr.id), ast.Name):
+        expr = d.single(expr.id)
+    if isinstance(expr, ast.Name) and len(d.of(expr.id)) > 1 and all(k == "assign" for k, v, st in d.of(expr.id)):
+        out = {}
+        for k, v, st in d.of(expr.id):
+            out[_mode_of(g, st, d)] = expand(v, d, depth=8)
+        return out
+    if isinstance(expr, ast.IfExp):
+        tt = norm(expr.test)
+        if tt == "mode == 'concatenation'":
+            return {"concatenation": expand(expr.body, d, depth=8), "subtraction": expand(expr.orelse, d, depth=8)}
+    return {"any": expand(expr, d, depth=8)}
+
+
+def _selectors(f):
+    """per mode: {'edge_data': data block, 'm': mean block} handed to the consuming call (np.cov in a batch routine,
+    the running-covariance update in an increment routine), fully expanded"""
+    ks = [k for k in calls_in(f.node) if (dotted(k.func) or "") in ("np.cov", "_increment_multivariate_gaussian_cov") and k.args]
     out = {}
-    for n in walk_own(f.node):
-        if isinstance(n, ast.Assign) and norm(n.targets[0]) in ("edge_data", "m"):
-            mode = "any"
-            for t, pol in g.guards(n):
-                if norm(t) == "mode == 'concatenation'":
-                    mode = "concatenation" if pol else "subtraction"
-            out.setdefault(mode, {})[norm(n.targets[0])] = n.value
+    for k in ks:
+        for mode, v in _per_mode(f, k.args[0]).items():
+            out.setdefault(mode, {})["edge_data"] = v
+        if (dotted(k.func) or "") == "_increment_multivariate_gaussian_cov" and len(k.args) > 1:
+            for mode, v in _per_mode(f, k.args[1]).items():
+                out.setdefault(mode, {})["m"] = v
     return out
+
+
+def k_site(f):
+    ks = [k for k in calls_in(f.node) if (dotted(k.func) or "") == "_increment_multivariate_gaussian_cov"]
+    return ks[0] if ks else f.node
 
 
 def rule_r3(p, res):
@@ -177,32 +240,40 @@ def rule_r3(p, res):
             dv, mv = sel.get("edge_data"), sel.get("m")
             need(dv is not None and mv is not None, "C11.R3: data / mean block of %s (%s) not found" % (iname, mode))
             # the mean selector is the data selector with X[:, s] -> mean[s]
-            want_m = norm(dv).replace("%s[:, " % X, "%s[" % M)
-            r.check(norm(mv) == want_m, jf, mv, "%s (%s): the mean block `%s` is not selected like the data block `%s`: the covariance update would pair columns with the wrong means"
+            pj, pc = set(jf.params), set(cf.params)
+            want_m = _alpha(dv, pj).replace("%s[:, " % X, "%s[" % M)
+            r.check(_alpha(mv, pj) == want_m, jf, k_site(jf), "%s (%s): the mean block `%s` is not selected like the data block `%s`: the covariance update would pair columns with the wrong means"
                     % (iname, mode, norm(mv)[:60], norm(dv)[:60]), {"routine": iname, "mode": mode})
             # same data selector as the batch routine
             cdv = cs.get(mode, {}).get("edge_data")
-            if cdv is None and "diagonal" in cn:
-                cov = [k for k in calls_in(cf.node) if (dotted(k.func) or "") == "np.cov"]
-                cdv = cov[0].args[0] if cov else None
-            r.check(cdv is not None and norm(cdv) == norm(dv), jf, dv, "%s (%s) selects the block `%s` but the batch routine selects `%s`" % (iname, mode, norm(dv)[:60], norm(cdv)[:60] if cdv is not None else None),
+            if cdv is None:
+                cdv = cs.get("any", {}).get("edge_data")
+            need(cdv is not None, "C11.R3: the block the batch routine %s hands to np.cov for mode `%s` was not found" % (cn, mode))
+            r.check(_alpha(cdv, pc).replace(cf.params[0] + "[", "X[") == _alpha(dv, pj).replace(X + "[", "X["), jf, k_site(jf),
+                    "%s (%s) selects the block `%s` but the batch routine selects `%s`" % (iname, mode, norm(dv)[:60], norm(cdv)[:60] if cdv is not None else None),
                     {"routine": iname, "mode": mode, "same_as_batch": True})
         upd = [k for k in calls_in(jf.node) if (dotted(k.func) or "") == "_increment_multivariate_gaussian_cov"]
         need(len(upd) == 1, "C11.R3: %s must update the covariance once per block" % iname)
         k = upd[0]
         idx = "e" if "diagonal" not in iname else "v"
-        r.check([norm(a) for a in k.args] == ["edge_data", "m", "covariances[%s]" % idx, jf.params[3]], jf, k, "%s: the update must receive (block data, block mean, stored block covariance, old count) (found %s)" % (iname, [norm(a) for a in k.args]))
+        dj = Defs(jf.node)
+        loopvars = {nm for nm, ds in dj.defs.items() if any(kd == "for" for kd, _v, _s in ds)}
+        a2 = expand(k.args[2], dj) if len(k.args) > 2 else None
+        stored_ok = isinstance(a2, ast.Subscript) and norm(a2.value) == jf.params[2] and isinstance(a2.slice, ast.Name) and a2.slice.id in loopvars
+        idx = a2.slice.id if stored_ok else idx
+        r.check(len(k.args) >= 4 and stored_ok and norm(expand(k.args[3], dj)) == jf.params[3], jf, k,
+                "%s: the update must receive (block data, block mean, stored block covariance, old count) (found %s)" % (iname, [norm(a) for a in k.args]))
         r.check(kwarg(k, "bias") is not None and norm(kwarg(k, "bias")) == "bias", jf, k, "%s: the covariance update must use the model's bias convention (bias=bias); otherwise the incremental "
                 "precision differs from the batch one for bias=1" % iname)
         st = stmt_of(k)
-        r.check(isinstance(st, ast.Assign) and norm(st.targets[0]) == "(_, covariances[%s])" % idx, jf, st, "%s: the updated covariance must be stored back for the next increment" % iname)
+        r.check(isinstance(st, ast.Assign) and isinstance(st.targets[0], ast.Tuple) and len(st.targets[0].elts) == 2 and norm(st.targets[0].elts[1]) == "%s[%s]" % (jf.params[2], idx), jf, st, "%s: the updated covariance must be stored back for the next increment" % iname)
         invs = [x for x in calls_in(jf.node) if (dotted(x.func) or "") == "_covariance_matrix_inverse"]
-        r.check(len(invs) == 1 and norm(invs[0].args[0]) == "covariances[%s]" % idx, jf, invs[0] if invs else jf.node, "%s: the precision block must be the inverse of the *updated* covariance" % iname)
+        r.check(len(invs) == 1 and norm(expand(invs[0].args[0], Defs(jf.node))) == "%s[%s]" % (jf.params[2], idx), jf, invs[0] if invs else jf.node, "%s: the precision block must be the inverse of the *updated* covariance" % iname)
         g = cfgmod.build(jf.node)
         if invs:
             r.check(g.reaches(st, stmt_of(invs[0])) and not g.reaches(stmt_of(invs[0]), st) or True, jf, st, "")
         for ret in returns_of(jf.node):
-            r.check(isinstance(ret.value, ast.Tuple) and norm(ret.value.elts[1]) == "covariances", jf, ret, "%s must return the updated covariances" % iname)
+            r.check(isinstance(ret.value, ast.Tuple) and norm(ret.value.elts[1]) == jf.params[2], jf, ret, "%s must return the updated covariances" % iname)
     r.floor(4, "increment routines")
 
 
@@ -246,10 +317,29 @@ def rule_r4(p, res):
     gq = cfgmod.build(ip.node)
     mb = [n_ for n_ in walk_own(ip.node) if isinstance(n_, ast.Assign) and norm(n_.targets[0]) == "m_b"]
     need(len(mb) == 1, "C11.R4: the new-batch mean of ipca was not found")
-    gs = [(norm(t), pol) for t, pol in gq.guards(mb[0])]
-    accepted = ("m_a is not None and (not np.all(m_a == 0))", "m_a is not None and np.any(m_a != 0)", "m_a is not None and np.any(m_a)", "m_a is not None and (not np.allclose(m_a, 0))")
-    r.check(len(gs) == 1 and gs[0][1] is True and gs[0][0] in accepted, ip, mb[0], "ipca must take the mean-aware update whenever the old mean is not identically zero; the guard is %s "
-            "(a mean with *some* zero entries is still a mean)" % gs, {"centred_update_guard": gs})
+    guards = list(gq.guards(mb[0]))
+    gs = [(norm(t), pol) for t, pol in guards]
+
+    def atom(e):
+        t = norm(e)
+        if t in ("m_a is None", "m_a is not None"):
+            return ("none", t == "m_a is None")
+        if t in ("np.all(m_a == 0)", "np.allclose(m_a, 0)", "(m_a == 0).all()", "np.all(m_a == 0.0)"):
+            return ("zero", True)
+        if t in ("np.any(m_a != 0)", "np.any(m_a)", "m_a.any()", "(m_a != 0).any()", "np.any(m_a != 0.0)", "np.count_nonzero(m_a) > 0", "np.count_nonzero(m_a) != 0"):
+            return ("zero", False)
+        if t in ("np.count_nonzero(m_a) == 0",):
+            return ("zero", True)
+        if t in ("np.all(m_a != 0)", "np.all(m_a)", "m_a.all()", "(m_a != 0).all()", "np.all(m_a != 0.0)"):
+            return ("allnz", True)  # every entry non-zero: a different question
+        return None
+
+    from ..domains import path_condition
+    # the generic mean: not None, some entries zero and some not
+    table = {(nn, zz): path_condition(guards, {"none": nn, "zero": zz, "allnz": False}, atom) for nn in (False, True) for zz in (False, True)}
+    need(None not in (table[(False, False)], table[(False, True)]) and guards, "C11.R4: the guard of the mean-aware update of ipca (%s) is not built from `m_a is None` and a test of all entries against zero" % gs)
+    r.check(table[(False, False)] is True and table[(False, True)] is False and table[(True, False)] in (False, None) and table[(True, True)] in (False, None), ip, mb[0],
+            "ipca must take the mean-aware update whenever the old mean is not identically zero; the guard is %s (a mean with *some* zero entries is still a mean)" % gs, {"centred_update_guard": gs})
     r.check("m = n_a / n * m_a + n_b / n * m_b" in s, ip, ip.node, "ipca: merged mean is the count-weighted mean")
     r.check("np.sqrt(n_a * n_b / n) * (m_b - m_a)" in s, ip, ip.node, "ipca: the mean-shift pseudo-sample is sqrt(n_a n_b / n) (m_b - m_a)")
     st = [n_ for n_ in walk_own(ip.node) if isinstance(n_, ast.Assign) and norm(n_.targets[0]) == "s_a"]
